@@ -76,6 +76,15 @@ func thoroughExtras(id, knownF string, noSelf bool) (results []extraResult, ok b
 			}
 		}
 	}
+	// breaking changes written by independent sub-agents for this property (seeded/<id>-*): each must be reported
+	seeds, _ := filepath.Glob(filepath.Join(verif, "seeded", id+"-*", "patch.diff"))
+	sort.Strings(seeds)
+	for _, f := range seeds {
+		if mb, err := os.ReadFile(filepath.Join(filepath.Dir(f), "meta.json")); err == nil && strings.Contains(string(mb), "\"neutralised_by_fix\"") {
+			continue // exploited a defect that has since been repaired
+		}
+		vs = append(vs, v{f, "seeded/" + filepath.Base(filepath.Dir(f)), "mutants"})
+	}
 	if b, err := os.ReadFile(filepath.Join(verif, "selftest", "reverts.txt")); err == nil {
 		for _, line := range strings.Split(string(b), "\n") {
 			f := strings.Fields(line)
